@@ -7,10 +7,14 @@ import NeumannModel.Common.FramedLog
                                      put_durable, delete_durable, checkpoint, recover, apply_wal_entry
     tensor_store/src/entity_index.rs get / get_or_create / remove (ids = vocabulary positions, tombstones)
   Follows /repo at 197dc525 (checkpoint fsyncs the log first), e374d74b (an `emb:` key stored
-  without a usable vector clears the slab entry of its id, live and on replay) and the fix
-  "replay ignores EmbeddingSet records" (the entity id in the record is the writing session's).
+  without a usable vector clears the slab entry of its id, live and on replay), 6b9ec7ce
+  ("replay ignores EmbeddingSet records": the entity id in the record is the writing session's)
+  and the fix "only `emb:` keys get an entity-index entry / an `EmbeddingSet` record / a slab
+  entry in `put_durable` and `apply_wal_entry`" (a vector stored under any other key stays in
+  the metadata slab alone, as in `put`).
   The behaviours before those commits are kept as `putOld` / `applyEntryOld1` / `applyEntryOld2` /
-  `recoverWith` / `Sys.ckptStepsOld` for the `…_witness` theorems only.
+  `applyEntryOld3` / `putDurableOld` / `stepOld` / `runOpsOld` / `recoverWith` /
+  `Sys.ckptStepsOld` for the `…_witness` theorems only.
   Import-free apart from the shared framed-log model; executable.  bitcode is opaque: a WAL
   payload is a byte string and `dec : Bytes → Option Entry` (supplied by the harness, which
   runs the real `bitcode::deserialize`) says what it means.
@@ -175,12 +179,28 @@ def scanKeys (s : Store) : List Bytes :=
 
 /-! ### durable operations: what is logged, then applied -/
 
-/-- `put_durable`: records appended to the WAL (in order) and the new in-memory state -/
+/-- `put_durable`: records appended to the WAL (in order) and the new in-memory state.
+    Only an `emb:` key whose value carries a vector allocates an entity id and logs an
+    `EmbeddingSet` record before its `MetadataSet` record. -/
 def putDurable (s : Store) (k : Bytes) (v : Val) : List Entry × Store :=
+  if isCacheKey k then ([], put s k v) else
+  if classify k = .embedding then
+    match v.emb with
+    | some vec =>
+        let ic := idxGetOrCreate s.vocab k            -- `self.index.get_or_create(key)` before logging
+        ([.embSet ic.1 vec, .metaSet k v], put { s with vocab := ic.2 } k v)
+    | none => ([.metaSet k v], put s k v)
+  else ([.metaSet k v], put s k v)
+
+/-- `put_durable` BEFORE the fix "only `emb:` keys get an entity-index entry": the id was
+    allocated and the `EmbeddingSet` record logged for ANY non-cache key whose value carries a
+    vector; `delete` of such a key (metadata class: metadata slab only) never released the id,
+    so `scan` went on listing the deleted key.  Only used by `…_witness` theorems. -/
+def putDurableOld (s : Store) (k : Bytes) (v : Val) : List Entry × Store :=
   if isCacheKey k then ([], put s k v) else
   match v.emb with
   | some vec =>
-      let ic := idxGetOrCreate s.vocab k            -- `self.index.get_or_create(key)` before logging
+      let ic := idxGetOrCreate s.vocab k
       ([.embSet ic.1 vec, .metaSet k v], put { s with vocab := ic.2 } k v)
   | none => ([.metaSet k v], put s k v)
 
@@ -195,15 +215,13 @@ def deleteDurable (s : Store) (k : Bytes) : List Entry × Store × Bool :=
 /-- `apply_wal_entry` -/
 def applyEntry (s : Store) : Entry → Store
   | .metaSet k v =>
-      match v.emb with
-      | some vec =>
-          let ic := idxGetOrCreate s.vocab k
-          { s with md := aset s.md k v, vocab := ic.2, slab := slabPut s.slab ic.1 vec }
-      | none =>
-          if classify k = .embedding then      -- same as `put`: allocate the id, drop a stale slab entry
-            let ic := idxGetOrCreate s.vocab k
-            { s with md := aset s.md k v, vocab := ic.2, slab := aerase s.slab ic.1 }
-          else { s with md := aset s.md k v }
+      if classify k = .embedding then          -- same as `put`: only `emb:` keys have an id and a slab entry
+        let ic := idxGetOrCreate s.vocab k
+        let slab := match v.emb with
+          | some vec => slabPut s.slab ic.1 vec
+          | none => aerase s.slab ic.1         -- drop any stale slab entry
+        { s with md := aset s.md k v, vocab := ic.2, slab := slab }
+      else { s with md := aset s.md k v }
   | .metaDel k => { s with md := aerase s.md k }
   | .embSet _ _ => s      -- the logged id is the writing session's; the `MetadataSet` that follows carries the vector
   | .embDel id => { s with slab := aerase s.slab id }
@@ -211,13 +229,30 @@ def applyEntry (s : Store) : Entry → Store
   | .entRemove k => { s with vocab := idxRemove s.vocab k }
   | .txBegin _ | .txCommit _ | .txAbort _ | .checkpoint _ => s
 
-/-- `apply_wal_entry` BEFORE the fix "replay ignores EmbeddingSet records": the slab entry of the
-    LOGGED entity id is overwritten.  Only used by `…_witness` theorems. -/
-def applyEntryOld2 (s : Store) : Entry → Store
-  | .embSet id vec => { s with slab := slabSet s.slab id vec }
+/-- `apply_wal_entry` BEFORE the fix "only `emb:` keys get an entity-index entry": a
+    `MetadataSet` whose value carries a vector allocated an id and wrote the slab whatever the
+    key class.  Only used by `…_witness` theorems. -/
+def applyEntryOld3 (s : Store) : Entry → Store
+  | .metaSet k v =>
+      match v.emb with
+      | some vec =>
+          let ic := idxGetOrCreate s.vocab k
+          { s with md := aset s.md k v, vocab := ic.2, slab := slabPut s.slab ic.1 vec }
+      | none =>
+          if classify k = .embedding then
+            let ic := idxGetOrCreate s.vocab k
+            { s with md := aset s.md k v, vocab := ic.2, slab := aerase s.slab ic.1 }
+          else { s with md := aset s.md k v }
   | e => applyEntry s e
 
-/-- `apply_wal_entry` BEFORE repo e374d74b (and before the fix above).  Only used by `…_witness` theorems. -/
+/-- `apply_wal_entry` BEFORE repo 6b9ec7ce "replay ignores EmbeddingSet records" (and before the
+    fix above): the slab entry of the LOGGED entity id is overwritten.  Only used by `…_witness`
+    theorems. -/
+def applyEntryOld2 (s : Store) : Entry → Store
+  | .embSet id vec => { s with slab := slabSet s.slab id vec }
+  | e => applyEntryOld3 s e
+
+/-- `apply_wal_entry` BEFORE repo e374d74b (and before the fixes above).  Only used by `…_witness` theorems. -/
 def applyEntryOld1 (s : Store) : Entry → Store
   | .metaSet k v =>
       match v.emb with
@@ -352,6 +387,19 @@ def runOps (s : Store) : List Op → List Entry × Store
   | op :: ops =>
       let a := step s op
       let b := runOps a.2 ops
+      (a.1 ++ b.1, b.2)
+
+/-- `step` / `runOps` with `putDurableOld` (the writer before the fix "only `emb:` keys get an
+    entity-index entry").  Only used by `…_witness` theorems. -/
+def stepOld (s : Store) : Op → List Entry × Store
+  | .put k v => putDurableOld s k v
+  | .delete k => let r := deleteDurable s k; (r.1, r.2.1)
+
+def runOpsOld (s : Store) : List Op → List Entry × Store
+  | [] => ([], s)
+  | op :: ops =>
+      let a := stepOld s op
+      let b := runOpsOld a.2 ops
       (a.1 ++ b.1, b.2)
 
 /-- what the operations mean: a plain key → value map; the cache class is not part of it -/
